@@ -685,6 +685,7 @@ def draw_config(ch, rng, nmodes, cfgname, domain_hint, allow_srs):
             kind = 5
             expr, needs, fn = DRFUNCS[kind]
         cs.kind = kind
+        cs.needs = needs
         cs.fn = fn
         base_rows = 1 + ch.draw(4, "rows")
         cs.V = {}
@@ -1081,10 +1082,18 @@ def op_recover_psd(M, ch, tr, st, rng, mod, ev):
     nf = len(f)
     flat = ch.flip(1, 3, "flat_psd")
     forcepsd = np.ones((NPG, nf)) * rng.uniform(0.2, 2.0, (NPG, 1)) if flat else rng.uniform(0.1, 2.0, (NPG, nf))
+    trim = False
     if ch.flip(1, 3, "zero_force_row"):
         # an all-zero force PSD (not trimmed by default: the solver warns and carries on)
         forcepsd[ch.draw(NPG, "zero_row")] = 0.0
         st.fault("zero_force_psd_row")
+        if ch.flip(1, 4, "second_zero_row"):
+            forcepsd[ch.draw(NPG, "zero_row2")] = 0.0
+        # trimming the zero forces off is documented as safe when no category recovers
+        # with a force-dependent matrix (sol.pg): the answer must not change
+        if not any(getattr(c, "needs", "") == "AF" for c in ev.cats) and np.any(forcepsd) and ch.flip(1, 2, "allow_force_trimming"):
+            trim = True
+            st.fault("force_trimming")
     t_frc = rng.standard_normal((mod.n, NPG))
     kw = dict(incrb=ev.incrb, rf_disp_only=ev.rf_disp_only)
     nas = {"nrb": mod.nrb}
@@ -1096,7 +1105,7 @@ def op_recover_psd(M, ch, tr, st, rng, mod, ev):
         _t.time = FakeClock(ch, st)
     try:
         with _Sut("DR_Results.solvepsd"), _quiet():
-            ev.res.solvepsd(nas, case, ev.DR, ev.fs, forcepsd.copy(), t_frc.copy(), f.copy(), use_apply_uf=ev.use_apply_uf, verbose=verbose, **kw)
+            ev.res.solvepsd(nas, case, ev.DR, ev.fs, forcepsd.copy(), t_frc.copy(), f.copy(), use_apply_uf=ev.use_apply_uf, verbose=verbose, **({"allow_force_trimming": True} if trim else {}), **kw)
     finally:
         _t.time = orig
     with _Sut("DR_Results.psd_data_recovery"), _quiet():
@@ -1722,5 +1731,5 @@ ASSUMPTIONS = [
 EXPECTED_FAULTS = [
     "psd_domain", "clock_jump_backwards", "clock_jump_forwards", "external_maxmin", "merge_rename", "mixed_abscissa", "model_varies_between_events", "zero_force_psd_row", "nan_cells", "ties", "ties_quantised", "one_column_ext", "label_mismatch", "j_out_of_order", "interleaved_events", "view_drfunc",
     "cache_reuse", "cache_reuse_repeat_uf", "stale_extreme_rebuild", "shared_DR_Event", "envelope_multi_event", "split_merge", "calc_ext",
-    "checkpoint_saved", "crash_restart_from_checkpoint", "crash_restart_from_scratch", "crash_lost_cases_redone", "summary_copy", "summary_copy_stripped",
+    "force_trimming", "checkpoint_saved", "crash_restart_from_checkpoint", "crash_restart_from_scratch", "crash_lost_cases_redone", "summary_copy", "summary_copy_stripped",
 ]
